@@ -199,6 +199,7 @@ class World:
         self.off_thread = []            # callbacks observed on a thread other than L
         self.first_post = True
         self.seen_closing = False
+        self.infra = None
 
     def rec(self, *ev):
         self.trace.append(list(ev))
@@ -291,6 +292,8 @@ def make_shims(W):
                 self.target(*self.args, **self.kwargs)
             except Abort:
                 pass
+            except Infra as e:
+                W.infra = str(e)
             except BaseException as e:      # the selector thread died: part of the observation
                 self.exc = type(e).__name__
                 W.errors.append("selector thread raised %s" % type(e).__name__)
@@ -548,6 +551,8 @@ def _run_sim(case):
                     pass
     finally:
         pass
+    if W.infra:
+        outcome = {"status": "infra", "where": W.infra}
     s = W.sel
     final = None
     if s is not None:
